@@ -435,8 +435,22 @@ class Generator:
         otoks = lex(text)
         E, ghosts = split_ghost(otoks)
         out, ratio, identical, cmap = transplant(E, ghosts, C)
+        lost_body = False
         if ratio < 0.5:
-            raise LostAnchor(f'only {ratio:.0%} of the overlay tokens of {it.key} align with the current code')
+            # the body was rewritten beyond recognition.  If the signature is unchanged the contract header can
+            # still be attached: keep only the ghost regions that sit in the signature/header and drop the inner
+            # ones (the function is then verified "degraded": contract on the fresh body, no proof hints; proved =>
+            # the contract still holds, not proved => undecided, and check.py asks the Kani harnesses)
+            ns = len(sig)
+            if E[:ns] == sig and it.kind in ('fn', 'const'):
+                hghosts = [(k, g) for (k, g) in ghosts if k <= ns]
+                out, _r, _i, cmap = transplant(sig + ['{', '}'], hghosts, sig + ['{', '}'])
+                out = out[:cmap[ns]] + list(body)
+                cmap = cmap[:ns + 1] + [cmap[ns] + j for j in range(1, len(body) + 1)]
+                identical = False
+                lost_body = True
+            else:
+                raise LostAnchor(f'only {ratio:.0%} of the overlay tokens of {it.key} align with the current code')
         it.ratio = ratio
         it.identical = identical
         it.impl_header = impl
@@ -466,6 +480,9 @@ class Generator:
         # degraded variant (used only when the transplanted ghost text no longer compiles against changed code):
         # the contract header on the fresh body without any inner ghost text
         it.degraded_full = '#[verifier::exec_allows_no_decreases_clause]\n' + join(list(header) + list(body))
+        if lost_body:
+            it.full = it.degraded_full
+            it.log['LOSTBODY'] = 1
         # canary variant: `assert(false)` at the top of the body and at the top of every loop body
         # that carries an invariant; each must be reported as failing (vacuity guard, DESIGN 3.8)
         cpos = [b]
